@@ -817,6 +817,8 @@ def value_attr(ex, obj, name):
         if name == 'is_complex':
             return obj in T.COMPLEX
     if isinstance(obj, (str, I.Opaque)):
+        if not hasattr(str, name):
+            raise PyRaise('AttributeError', "'str' object has no attribute '%s'" % name, origin='python-misuse')
         raise OutOfSubset('string method %s' % name)
     if isinstance(obj, I.Device):
         return I.Opaque('str')
@@ -1711,3 +1713,75 @@ def _parameter_list(ex, a, k):
 @ext('torch.jit.export')
 def _jit_export(ex, a, k):
     return a[0]
+
+
+# ------------------------------------------------------------------------------------------------
+# factorizations: opaque values with ghost (gauge-domain) attributes
+# ------------------------------------------------------------------------------------------------
+
+def _min_size(ex, m, n):
+    if not is_sym(m) and not is_sym(n):
+        return min(m, n)
+    a, b = to_int(m), to_int(n)
+    if ex.pc.implied(a <= b):
+        return sz(a)
+    if ex.pc.implied(b <= a):
+        return sz(b)
+    return sz(z3.If(a <= b, a, b))
+
+
+@ext('torch.linalg.qr')
+def _qr(ex, a, k):
+    """reduced QR (assumed contract): Q (m x k) has orthonormal columns, R (k x n), k = min(m, n), Q R = A.
+    No sign / phase convention is assumed."""
+    A = a[0]
+    if not isinstance(A, STensor) or A.ndim != 2:
+        raise PyRaise('RuntimeError', 'linalg.qr: expected a matrix', origin='torch')
+    if A.dtype not in T.FLOATS + T.COMPLEX:
+        raise PyRaise('RuntimeError', 'linalg.qr: expected a floating point or complex tensor', origin='torch')
+    if k.get('mode', 'reduced') != 'reduced' or len(a) > 1:
+        raise OutOfSubset('qr mode')
+    m, n = A.shape
+    kk = _min_size(ex, m, n)
+    Q = T.opaque_tensor([m, kk], A.dtype, 'Q')
+    R = T.opaque_tensor([kk, n], A.dtype, 'R')
+    Q.ghost.update({'orth_cols': True, 'qr_of': A, 'role': 'Q'})
+    R.ghost.update({'qr_of': A, 'role': 'R', 'Q': Q})
+    if 'fro2' in A.ghost:
+        R.ghost['fro2'] = A.ghost['fro2']
+    ex.events.append(('qr', A, Q, R))
+    T.derive(Q, A)
+    T.derive(R, A)
+    return (Q, R)
+
+
+@ext('torch.linalg.svd')
+def _svd(ex, a, k):
+    """reduced SVD (assumed contract): U (m x k) orthonormal columns, S (k) non-negative and sorted decreasingly,
+    Vh (k x n) orthonormal rows, U diag(S) Vh = A, k = min(m, n)"""
+    A = a[0]
+    if not isinstance(A, STensor) or A.ndim != 2:
+        raise PyRaise('RuntimeError', 'linalg.svd: expected a matrix', origin='torch')
+    if A.dtype not in T.FLOATS + T.COMPLEX:
+        raise PyRaise('RuntimeError', 'linalg.svd: expected a floating point or complex tensor', origin='torch')
+    fm = k.get('full_matrices', a[1] if len(a) > 1 else True)
+    if fm:
+        raise OutOfSubset('svd with full_matrices=True')
+    m, n = A.shape
+    kk = _min_size(ex, m, n)
+    U = T.opaque_tensor([m, kk], A.dtype, 'U')
+    sdt = A.dtype if A.dtype in T.FLOATS else ('float64' if A.dtype == 'complex128' else 'float32')
+    S = T.opaque_tensor([kk], sdt, 'S')
+    V = T.opaque_tensor([kk, n], A.dtype, 'Vh')
+    U.ghost.update({'orth_cols': True, 'svd_of': A, 'role': 'U'})
+    V.ghost.update({'orth_rows': True, 'svd_of': A, 'role': 'Vh'})
+    S.ghost.update({'svals': True, 'svd_of': A, 'role': 'S'})
+    rec = {'A': A, 'U': U, 'S': S, 'V': V, 'k': kk}
+    for t in (U, S, V):
+        t.ghost['svd'] = rec
+    if 'fro2' in A.ghost:
+        S.ghost['fro2'] = A.ghost['fro2']
+    ex.events.append(('svd', rec))
+    for t in (U, S, V):
+        T.derive(t, A)
+    return (U, S, V)
